@@ -120,6 +120,9 @@ unsafe impl GlobalAlloc for GuardAlloc {
         hdr.add(1).write_unaligned(layout.size() as u64);
         hdr.add(2).write_unaligned(layout.align() as u64);
         std::ptr::write_bytes(payload.add(layout.size()), BACK_CANARY, BACK);
+        // junk-fill the payload: reads of memory the program never initialised then yield 0xCD
+        // garbage instead of the zeroes of a fresh page (alloc_zeroed overwrites it afterwards)
+        std::ptr::write_bytes(payload, 0xCD, layout.size());
         LIVE_ALLOCS.fetch_add(1, Ordering::Relaxed);
         let live = LIVE_BYTES.fetch_add(layout.size() as i64, Ordering::Relaxed) + layout.size() as i64;
         HIGH_WATER.fetch_max(live, Ordering::Relaxed);
